@@ -433,6 +433,16 @@ def make_numpy(interp):
             return A.full(k, x, "repeat")
         raise EngineError("np.repeat")
 
+    def tile(x, k):
+        if isinstance(k, Fraction):
+            k = int(k)
+        if isinstance(x, SymArray) and isinstance(k, int) and k >= 1:
+            at = x._snapshot_at()
+            n = x.length
+            with T.no_safety():
+                return SymArray(T.mul(n, k), lambda i: at(T.mod(i, n) if k != 1 else i), name="tile")
+        raise EngineError("np.tile")
+
     def diag(v):
         if not isinstance(v, SymArray):
             raise EngineError("np.diag")
@@ -500,7 +510,7 @@ def make_numpy(interp):
 
     table = {
         "zeros": zeros, "concatenate": np_concatenate, "shape": np_shape, "divide": np_divide, "zeros_like": zeros_like, "ones": ones, "full_like": full_like, "array": array,
-        "where": where, "arange": arange, "linspace": linspace, "append": append, "repeat": repeat,
+        "where": where, "arange": arange, "linspace": linspace, "append": append, "repeat": repeat, "tile": tile,
         "diag": diag, "einsum": einsum, "min": np_min, "max": np_max, "amax": np_max, "amin": np_min, "average": average, "spacing": spacing,
         "ndim": ndim, "deg2rad": deg2rad, "square": square, "vstack": vstack, "isnan": isnan, "any": np_any,
         "sqrt": _ew(lambda x: T.sqrt(x, "sqrt"), True, "sqrt"),
